@@ -463,7 +463,12 @@ def jaxtyped(fn=_sentinel, *, typechecker=_sentinel):
                 # Actually call the function.
                 out = fn(*args, **kwargs)
 
-                if full_signature.return_annotation is not inspect.Signature.empty:
+                if (
+                    full_signature.return_annotation is not inspect.Signature.empty
+                    # Calling a coroutine function returns a coroutine object, which
+                    # is not the value that the return annotation describes.
+                    and not inspect.iscoroutinefunction(fn)
+                ):
                     # Now type-check the return value. We need to include the
                     # parameters in the type-checking here in case there are any
                     # type variables shared across the parameters and return.
